@@ -42,5 +42,6 @@ EmitBad == \A k \in BadLines : PrintT("BAD " \o ToJson([line |-> k, fails |-> Fa
 Good == { j \in 1..Len(Obs) : Fails(Obs[j]) = {} }
 EmitCov == PrintT("COVER " \o ToJson(UNION { DisciplinesAll(Obs[k].procs) : k \in Good }))
            /\ PrintT("MULTI " \o ToString(Cardinality({ k \in Good : Obs[k].inst > 1 })))
+           /\ PrintT("OPTS " \o ToString(Cardinality({ k \in Good : SharedOptionPair(Obs[k].procs) })))
 TraceChecked == EmitBad /\ EmitCov /\ PrintT("CHECKED " \o ToString(Len(Obs)))
 =============================================================================
